@@ -1345,7 +1345,7 @@ class C08(Spec):
     def search(self, ctx, deep):
         rng = ctx.rng
         thorough = not ctx.quick
-        n_docs = 2600 if thorough else (320 if deep else 150)
+        n_docs = 2600 if thorough else (320 if deep else 120)
         # directed documents first (defaults-plus-extras for every element class, both versions; no randomness)
         jobs = [("directed", k, v, 0) for v in (1, 2) for k in range(directed.N_DOCS)]
         for i in range(n_docs):
